@@ -356,6 +356,29 @@ def check(ctx: Ctx) -> list[RuleResult]:
             if lk:
                 bad = (rf, lk[0])
                 break
+        # (b') the refill caps the *level* at the bucket's capacity: credit does not pile up across idle periods (capping the
+        # elapsed time instead lets every sparse write add up to a window's worth on top of what is already there)
+        r6.instances += 1
+        r6.nontrivial += 1
+        uncapped = []
+        for rf in refills:
+            a = rf.ast
+            v = a.value if isinstance(a, (ast.Assign, ast.AugAssign, ast.AnnAssign)) else None
+            if isinstance(a, ast.Assign) and isinstance(a.targets[0], ast.Tuple) and isinstance(v, ast.Tuple):
+                v = next((vv for tt, vv in zip(a.targets[0].elts, v.elts) if norm(tt) == model.level), None)
+            capped = isinstance(a, ast.Assign) and isinstance(v, ast.Call) and norm(v.func) == "min" and len(v.args) >= 2 and any(model.level in (reads(x) | model._deps(x)) for x in v.args) and any(model.level not in (reads(x) | model._deps(x)) and (model.stamp or "") not in (reads(x) | model._deps(x)) for x in v.args)
+            if not capped:
+                capped = isinstance(a, ast.Assign) and isinstance(v, ast.IfExp)  # a conditional spelling of min(): accepted as is
+            if not capped:
+                # a clamp right after: level = min(level, CAP)
+                fwd = cfgx.reachable_from(rf.id)
+                capped = any(y.id in fwd and y.ast is not None and y.kind == "stmt" and isinstance(y.ast, ast.Assign) and norm(y.ast.targets[0]) == model.level and isinstance(y.ast.value, ast.Call) and norm(y.ast.value.func) == "min" for y in cfgx.nodes)
+            if not capped:
+                uncapped.append(rf)
+        if uncapped:
+            r6.fail(f"{fn.short}:refill-not-capped", fn.loc(uncapped[0].ast), f"the refill `{norm(uncapped[0].ast)[:70]}` does not cap {model.level} at the bucket's capacity: idle time is credited on top of what the bucket already holds, so after sparse traffic a burst of several buckets' worth is let through at once (more than the allowance plus one full bucket in a window)")
+        else:
+            r6.ok({"function": fn.short, "refill_capped_at_capacity": True})
         if bad:
             rf, (ex, path, labs) = bad
             r6.fail(f"{fn.short}:refill-without-stamp", fn.loc(rf.ast), f"after the refill `{norm(rf.ast)[:70]}` an exit is reachable without {model.stamp} having been advanced: the same elapsed time is credited again on the next call", [f"exit at line {path[-1].line if path else '?'}"])
@@ -418,6 +441,12 @@ def check(ctx: Ctx) -> list[RuleResult]:
         for x in cfgm.nodes:
             if x.ast is not None and x.kind in ("stmt", "test") and x.id != drop[0].id and any(isinstance(y, ast.Await) for y in ast.walk(x.ast)) and drop[0].id in cfgm.reachable_from(x.id) and x.id not in cfgm.reachable_from(drop[0].id):
                 susp.append((mw, x.ast, f"`{norm(x.ast)[:50]}` before the over-budget test"))
+    # ...and the token is taken in the same synchronous step as the admission decision: an await between the over-budget test and
+    # the debit lets every caller that arrives meanwhile be admitted against the same, not yet debited, token count
+    if drop and deb:
+        for x in cfgm.nodes:
+            if x.ast is not None and x.kind in ("stmt", "test") and any(isinstance(y, ast.Await) for y in ast.walk(x.ast)) and x.id in cfgm.reachable_from(drop[0].id) and deb[0].id in cfgm.reachable_from(x.id) and x.id != deb[0].id:
+                susp.append((mw, x.ast, f"`{norm(x.ast)[:50]}` between the over-budget test and the debit of the token"))
     if susp:
         f4, n4, why4 = susp[0]
         r4.fail(f"{f4.short}:suspension-before-drop-decision", f4.loc(n4), f"a writer can be suspended before the over-budget decision is taken ({why4}): over-budget writes then queue up (without bound) behind the suspension point instead of being dropped, and each is written when it reaches the head")
